@@ -22,6 +22,8 @@ Invariant (assumed in the pre-state of every entry, proved in every post-state, 
      a path that leaves W >= 1 adds nothing; AwaitLockShared returns false iff it consumed one credit and returns
      true iff it queued the caller
   U  no counter is decremented below zero, no pop from an empty list
+  V  try operations: a failing TryLock / TryLockShared never modified _state on its path (no transient registration);
+     a succeeding one registered exactly one writer / reader
   R  reader exit / first-writer arming: UnlockHereShared removes one reader, touches _readers_wait only when a writer
      is registered (fetch_sub(1), once) and resumes _writers_first exactly when that returned 1; the first writer
      arms _readers_wait with exactly R, and does not suspend when R == 0
@@ -69,6 +71,7 @@ class G:
         self.problems = []  # (clause, message, loc)
         self.nfresh = 0
         self.trace = []
+        self.state_writes = []  # locations of operations that changed _state on this path
 
     def copy(self):
         g = copy.copy(self)
@@ -80,6 +83,7 @@ class G:
         g.cas = dict(self.cas)
         g.problems = list(self.problems)
         g.trace = list(self.trace)
+        g.state_writes = list(self.state_writes)
         return g
 
 
@@ -407,6 +411,7 @@ class InvWalker(pathwalk.Walker):
                 else:
                     self.add(g, 'R', kk, loc, 'the reader count')
                 g.trace.append('%s _state.%s(%s)' % (loc, last, 'kWriter' if kk % KW == 0 else 'kReader'))
+                g.state_writes.append(loc)
                 return old
             if last.startswith('compare_exchange'):
                 exp = self.ev(fn, args[0], st)
@@ -634,6 +639,7 @@ class InvWalker(pathwalk.Walker):
             for name in g.v:
                 g.v[name] = g.facts.norm(g.v[name])
             g.trace.append('%s CAS succeeded -> W=%r R=%r' % (loc, g.v['W'], g.v['R']))
+            g.state_writes.append(loc)
         else:
             if key is not None:
                 g.nfresh += 1
@@ -814,6 +820,18 @@ def check_post(walker, g, entry, rv, fifo):
         if entry in ('TryLockShared', 'TryLockSharedAwait', 'UnlockHereShared'):
             if not f0.prove_eq0(v['W'] - pre['W']):
                 bad.append(('A', '%s changes the writer half of _state' % entry))
+        if entry in ('TryLock', 'TryLockShared', 'TryLockAwait'):
+            # a try operation that fails must be invisible: a transiently registered reader / writer is owed credits
+            # (PassReaders) or waited for (_readers_wait) by whoever looks at _state in that window
+            if rv is not None and rv[0] == 'c' and not rv[1] and g.state_writes:
+                bad.append(('V', '%s reports failure on a path on which it modified _state (at %s): the transient '
+                            'registration is visible to a leaving writer, which grants a credit / waits for a reader '
+                            'that does not exist' % (entry, g.state_writes[0])))
+            if rv is not None and rv[0] == 'c' and rv[1]:
+                dw, dr = (1, 0) if entry != 'TryLockShared' else (0, 1)
+                if not (f0.prove_eq0(v['W'] - pre['W'] - dw) and f0.prove_eq0(v['R'] - pre['R'] - dr)):
+                    bad.append(('V', '%s reports success without registering exactly one %s' % (
+                        entry, 'writer' if dw else 'reader')))
         if entry == 'UnlockHereShared':
             if not f0.prove_eq0(v['R'] - pre['R'] + 1):
                 bad.append(('R', 'a shared unlock must remove exactly one reader from _state'))
